@@ -694,7 +694,31 @@ fn corr_typst(rep: &mut Report, text: &str) {
     }
     let mut exp: Vec<(usize, usize, u64)> = vec![];
     let e = c04_typst::expected(text, &root, &mut exp, &kind_code);
+    // b629a93: Typst::parse's retain filter — a token that starts before the end of what was kept so far is dropped
+    {
+        let n0 = exp.len();
+        let mut covered = 0usize;
+        exp.retain(|t| {
+            if t.0 < covered {
+                return false;
+            }
+            covered = covered.max(t.1);
+            true
+        });
+        rep.monitor("typst_tokens_dropped_by_retain", (n0 - exp.len()) as u64);
+        if n0 != exp.len() {
+            rep.count("typst:retain_dropped_a_token");
+        }
+    }
     let inp = json!({"kind":"typst","text":text});
+    // C04_typst_source_order (proved over the model for ANY tree): the tokens of Typst::parse are in source order and
+    // pairwise disjoint — on the implementation an oracle failure without exception, contract or not
+    if let Ok(t) = &imp {
+        rep.monitor("typst_token_order_checked", 1);
+        if let Some(i) = (1..t.len()).find(|i| t[*i].span.start < t[*i - 1].span.end) {
+            fail_limited(rep, "typst_tokens_out_of_order", format!("typst: token #{i} {:?} starts before the end of token #{} {:?}", t[i].span, i - 1, t[i - 1].span), inp.clone());
+        }
+    }
     match (&imp, e) {
         (Ok(t), Some(())) => {
             let got: Vec<(usize, usize, u64)> = t.iter().map(|k| (k.span.start, k.span.end, kind_code(&k.kind))).collect();
@@ -722,7 +746,8 @@ fn typst_text(r: &mut Rng) -> String {
             "#figure(caption: [the *river* é]) ", "#image(\"é.png\", alt: \"stone é\") ", "#raw(\"é\", lang: \"rs\") ", "#rgb(\"#ff00é\") ", "#a.b.c ", "#x.display(\"é\") ",
             "#set text(font: \"é\", size: 1pt) ", "#show heading: it => [é #it] ", "#if x { \"é a\" } else [b é] ", "#for i in (1, 2) [é #i] ", "#while false { } ",
             "#(a: \"é\", \"k\": 2, ..c) ", "#context [é] ", "#{ let y = \"é \\\\ z\"; y } ", "'quote' \"dq\" ", "a \\ b ", "#let", "#", "#(", "\\u{e9} ", "<label> @ref ", "#bibliography(\"é.bib\", style: \"é\") ",
-            "#cite(<é>, style: \"é\") ", "#(x) = 1 ", "#((a, b) => a + \"é\") ", "#let g(..args) = args ",
+            "#cite(<é>, style: \"é\") ", "#(x) = 1 ", "#show \"the\": [the é] ", "#show \"the the\":", "#while \"é x\"", "#let f(x", "#show \"é the\": ", "#show: it => [é #it] ", "#set text(size: 1pt, font: \"é\") if true ", "#image(alt: \"stone é\", \"é.png\") ",
+            "#raw(lang: \"rs\", \"é\", theme: \"x\") ", "#bibliography(style: \"é\", title: [the é], \"é.bib\") ", "#((a, b) => a + \"é\") ", "#let g(..args) = args ",
         ]));
     }
     s
